@@ -1159,9 +1159,21 @@ func freshStoreDominates(fn *ssa.Function, f *types.Var, at ssa.Instruction) boo
 			if !ok || core.FieldOf(st.Addr) != f || st == at {
 				continue
 			}
-			switch st.Val.(type) {
+			val := st.Val
+			for {
+				if ct, isCT := val.(*ssa.ChangeType); isCT {
+					val = ct.X
+					continue
+				}
+				break
+			}
+			switch v := val.(type) {
 			case *ssa.MakeMap, *ssa.MakeSlice:
 				if core.Dominates(st, at) {
+					return true
+				}
+			case *ssa.Slice:
+				if al, isAl := v.X.(*ssa.Alloc); isAl && al.Heap && core.Dominates(st, at) {
 					return true
 				}
 			}
